@@ -211,4 +211,127 @@ use ChildState::*;
  ("input-exhausted-ge", "src/communicate.rs",
   """                    if self.input_pos == self.input_data.len() {""",
   """                    if self.input_pos >= self.input_data.len() {"""),
+ ("os_start-child-branch-extracted", "src/popen.rs",
+  """                        None => {
+                            drop(exec_fail_pipe.0);
+                            let result = Popen::do_exec(
+                                just_exec,
+                                child_ends,
+                                child_cwd.as_deref(),
+                                config.setuid,
+                                config.setgid,
+                                config.setpgid,
+                            );
+                            // If we are here, it means that exec has failed.  Notify
+                            // the parent and exit.
+                            let error_code = match result {
+                                Ok(()) => unreachable!(),
+                                Err(e) => e.raw_os_error().unwrap_or(-1),
+                            } as u32;
+                            exec_fail_pipe
+                                .1
+                                .write_all(&[
+                                    error_code as u8,
+                                    (error_code >> 8) as u8,
+                                    (error_code >> 16) as u8,
+                                    (error_code >> 24) as u8,
+                                ])
+                                .ok();
+                            posix::_exit(127);
+                        }""",
+  """                        None => {
+                            drop(exec_fail_pipe.0);
+                            let result = Popen::do_exec(
+                                just_exec,
+                                child_ends,
+                                child_cwd.as_deref(),
+                                config.setuid,
+                                config.setgid,
+                                config.setpgid,
+                            );
+                            report_exec_failure(result, &mut exec_fail_pipe.1)
+                        }"""),
+ ("rename-locals-read_into", "src/communicate.rs",
+  """                let (in_ready, out_ready, err_ready) =
+                    maybe_poll(self.stdin.as_ref(), stdout_ref, stderr_ref, deadline)?;
+                if !in_ready && !out_ready && !err_ready {
+                    return Err(io::Error::new(io::ErrorKind::TimedOut, "timeout"));
+                }
+                if in_ready {""",
+  """                let (can_write, out_ready, err_ready) =
+                    maybe_poll(self.stdin.as_ref(), stdout_ref, stderr_ref, deadline)?;
+                if !can_write && !out_ready && !err_ready {
+                    return Err(io::Error::new(io::ErrorKind::TimedOut, "timeout"));
+                }
+                if can_write {"""),
+ ("reorder-cloexec-of-status-pipe", "src/popen.rs",
+  """            set_inheritable(&exec_fail_pipe.0, false)?;
+            set_inheritable(&exec_fail_pipe.1, false)?;""",
+  """            set_inheritable(&exec_fail_pipe.1, false)?;
+            set_inheritable(&exec_fail_pipe.0, false)?;"""),
+ ("stage-stdin-from-last_mut", "src/builder.rs",
+  """                    let prev_stdout = ret[idx - 1].stdout.take().unwrap();""",
+  """                    let prev_stdout = ret.last_mut().unwrap().stdout.take().unwrap();"""),
+ ("popen-drop-stdin-assign-none", "src/popen.rs",
+  """            self.stdin.take();
+            // Should we log error""",
+  """            self.stdin = None;
+            // Should we log error"""),
+ ("adapter-drop-assign-none", "src/builder.rs",
+  """        fn drop(&mut self) {
+            self.0.stdout.take();
+        }""",
+  """        fn drop(&mut self) {
+            self.0.stdout = None;
+        }"""),
+ ("cvec-push-null", "src/posix.rs",
+  """        let ptrs: Vec<_> = strings
+            .iter()
+            .map(|s| s.as_bytes_with_nul().as_ptr() as _)
+            .chain(iter::once(ptr::null()))
+            .collect();""",
+  """        let mut ptrs: Vec<*const c_char> = strings
+            .iter()
+            .map(|s| s.as_bytes_with_nul().as_ptr() as _)
+            .collect();
+        ptrs.push(ptr::null());"""),
+ ("shell-arg-instead-of-args", "src/builder.rs",
+  """            Exec::cmd(SHELL[0]).args(&SHELL[1..]).arg(cmdstr)""",
+  """            Exec::cmd(SHELL[0]).arg(SHELL[1]).arg(cmdstr)"""),
+ ("decode-signaled-first", "src/posix.rs",
+  """    if libc::WIFEXITED(status) {
+        ExitStatus::Exited(libc::WEXITSTATUS(status) as u32)
+    } else if libc::WIFSIGNALED(status) {
+        ExitStatus::Signaled(libc::WTERMSIG(status) as u8)
+    } else {""",
+  """    if libc::WIFSIGNALED(status) {
+        ExitStatus::Signaled(libc::WTERMSIG(status) as u8)
+    } else if libc::WIFEXITED(status) {
+        ExitStatus::Exited(libc::WEXITSTATUS(status) as u32)
+    } else {"""),
 ]
+
+# additional edits (same file) belonging to a refactor: (old, new) pairs
+EXTRA = {
+ "os_start-child-branch-extracted": [
+  ("""    fn format_env(env: &[(OsString, OsString)]) -> Vec<OsString> {""",
+   """    // Runs in the forked child after exec has failed: tell the parent why and exit.
+    fn report_exec_failure(result: io::Result<()>, status_pipe: &mut File) -> ! {
+        let error_code = match result {
+            Ok(()) => unreachable!(),
+            Err(e) => e.raw_os_error().unwrap_or(-1),
+        } as u32;
+        status_pipe
+            .write_all(&[
+                error_code as u8,
+                (error_code >> 8) as u8,
+                (error_code >> 16) as u8,
+                (error_code >> 24) as u8,
+            ])
+            .ok();
+        posix::_exit(127);
+    }
+
+    fn format_env(env: &[(OsString, OsString)]) -> Vec<OsString> {"""),
+ ],
+}
